@@ -39,6 +39,10 @@ class AbsoluteSequence(AbstractSequence):
         relative_sequence = RelativeSequence()
         current_point_in_time = 0
 
+        # Messages sharing a point in time are stored in the order they were added, the relative representation depends
+        # on their order (a note off has to precede the note on of a repetition starting at the same time)
+        self.sort()
+
         for msg in self._messages:
             time = msg.time
             # Check if we have to add wait messages
